@@ -1,6 +1,14 @@
-(* C06 — model of quara/objects/operators.py  compose_qoperations / _compose_qoperations* (every type pair, AS CODED),
+(* C06 — model of quara/objects/operators.py  compose_qoperations / _compose_qoperations* (every type pair, as coded),
    matrix_util.truncate_and_normalize, MProcess.to_povm, Povm.generate_mprocess (modes 0/1 after their LAPACK/SciPy
    kernel, mode 2 completely).   DEFINITIONS ONLY.   Generic in the ordered field F.
+
+   THE FAITHFUL MODEL IS THE CODE AFTER THE THREE REPAIRS proposed by this property (/verif/fixes):
+     compose-mprocess-mprocess-order-layout          (fix_mm = true,  hss_hss_fixed / shape_mm_fixed)
+     compose-mprocess-state-poststate-normalisation  (fix_ps = true)
+     povm-generate-mprocess-mode1-eigenvectors       (gm_mode1_cb)
+   The definitions of the code AS IT WAS BEFORE each fix are kept, clearly labelled (fix_mm = false: hss_hss_coded /
+   shape_mm_coded, fix_ps = false, gm_mode1_cb_prefix); they are what the `_refuted` theorems talk about and what the harness
+   uses to recognise a regression to the old behaviour.
 
    Objects are what the Python objects hold:  State = real coefficient vector (length n = d*d),  Gate = real n x n HS
    matrix,  Povm = list of coefficient vectors,  MProcess = list of HS matrices + shape + eps_zero,
@@ -32,12 +40,15 @@ Variable n : nat.                                   (* n = d*d, length of coeffi
 Definition gate_gate (G1 G2 : RM) : RM := mmul n G1 G2.                               (* elem1.hs @ elem2.hs *)
 Definition gate_hss (G : RM) (hss : list RM) : list RM := map (fun H => mmul n G H) hss.   (* Gate o MProcess *)
 Definition hss_gate (hss : list RM) (G : RM) : list RM := map (fun H => mmul n H G) hss.   (* MProcess o Gate *)
-(* _compose_qoperations_MProcess_MProcess AS CODED: elem1 = hss1 (acts LATER by the convention), elem2 = hss2;
+(* _compose_qoperations_MProcess_MProcess AS CODED BEFORE fix compose-mprocess-mprocess-order-layout:
+   elem1 = hss1 (acts LATER by the convention), elem2 = hss2;
    for hs2 in elem2.hss: for hs1 in elem1.hss: hss.append(hs2 @ hs1);  shape = elem1.shape + elem2.shape *)
 Definition hss_hss_coded (hss1 hss2 : list RM) : list RM :=
   flat_map (fun H2 => map (fun H1 => mmul n H2 H1) hss1) hss2.
 Definition shape_mm_coded (sh1 sh2 : list nat) : list nat := sh1 ++ sh2.
-(* what the convention of every other pair requires (proposed fix): product hs1 @ hs2, earlier outcome major, shape earlier ++ later *)
+(* the code after the fix (what the convention of every other pair requires):
+   for hs2 in elem2.hss: for hs1 in elem1.hss: hss.append(hs1 @ hs2);  shape = elem2.shape + elem1.shape
+   (product hs1 @ hs2, earlier outcome major, shape earlier ++ later) *)
 Definition hss_hss_fixed (hss1 hss2 : list RM) : list RM :=
   flat_map (fun H2 => map (fun H1 => mmul n H1 H2) hss1) hss2.
 Definition shape_mm_fixed (sh1 sh2 : list nat) : list nat := sh2 ++ sh1.
@@ -62,7 +73,8 @@ End Linear.
 (* ------------------------------------------------------------------ raw chains: the linear content of every operand and the
    composition table, for arbitrary bracketings.  [ROps g hss]: a gate (g = true, one matrix) or an instrument;
    [RVecs]: a state / ensemble as un-normalised vectors p_x rho_x;  [REffs]: a POVM;  [RNums]: joint probabilities.
-   [rcomp fixmm a b] = "a after b";  fixmm = false uses the MProcess o MProcess formula AS CODED. *)
+   [rcomp fixmm a b] = "a after b";  fixmm = true is the code; fixmm = false uses the MProcess o MProcess formula as coded
+   BEFORE fix compose-mprocess-mprocess-order-layout. *)
 Section Raw.
 Variable n : nat.
 Inductive robj := ROps (g : bool) (hss : list RM) | RVecs (vs : list RV) | REffs (P : list RV) | RNums (l : list F).
@@ -106,10 +118,10 @@ Variable atol : F.          (* Settings.get_atol(), 1e-13: threshold of truncate
 Variable eps8 : F.          (* 1e-8: default eps_zero and validate_prob_dist tolerance *)
 Variable ortho : bool.      (* c_sys.is_orthonormal_hermitian_0thprop_identity *)
 Variable ivec : RV.         (* generic-basis branch: coefficient vector of the identity (I_vec_gb) *)
-(* [false] = the code as it is.  [true] switches to the proposed fixes (findings C06-1, C06-3); used by the theorems that
-   state what holds after the fix and by the harness to show that the fix is what the property needs *)
-Variable fix_mm : bool.     (* MProcess o MProcess: product order + outcome layout *)
-Variable fix_ps : bool.     (* MProcess on State(Ensemble): post-state divided by the probability BEFORE renormalisation *)
+(* [true] = the code (after the fixes of /verif/fixes).  [false] = the code as it was BEFORE the respective fix; kept for the
+   `_refuted` theorems and for the harness, which uses it to recognise a regression to the old behaviour *)
+Variable fix_mm : bool.     (* compose-mprocess-mprocess-order-layout: MProcess o MProcess product order + outcome layout *)
+Variable fix_ps : bool.     (* compose-mprocess-state-poststate-normalisation: post state = Mx_rho / (p_x BEFORE renormalisation) *)
 
 Definition keq0 (x : F) : bool := kleb F x 0 && kleb F 0 x.
 (* matrix_util.truncate_and_normalize, 1-d: where(p < eps, 0, p) / sum ;  0/0 = NaN is rejected by the
@@ -138,7 +150,8 @@ Definition mps_core (hss : list RM) (eps : F) (v : RV) (w : F) : list RV * list 
   let mxs := map (fun H => mv n H v) hss in
   let raw := map px_raw mxs in
   let ps1 := mps_ps1 eps w raw in
-  (* AS CODED the post state is Mx_rho / p_x with p_x taken AFTER the renormalisation of the truncated distribution *)
+  (* fix_ps = true (the code): zip(Mx_rhos, ps_before_normalization).  Before the fix the post state was Mx_rho / p_x with p_x
+     taken AFTER the renormalisation of the truncated distribution *)
   let pdiv := if fix_ps then mps_ps0 eps w raw else ps1 in
   (map (fun mp => mps_post (fst mp) (snd mp)) (combine mxs pdiv), map (fun p => w * p) ps1).
 
@@ -300,32 +313,45 @@ Definition c06_convert_from_cb (B : nat -> CM) (Hcb : CM) : CM :=
   mmul (d * d) (mmul (d * d) (c06_umat B) Hcb) (cadj (c06_umat B)).
 (* mode 0: hs_cb = kron(sqrt_matrix, sqrt_matrix.conjugate()) *)
 Definition gm_mode0_cb (S : CM) : CM := kron d d S (cconj S).
-(* mode 1 AS CODED: zip(eigenvals, eigenvecs) pairs eigenvalue k with ROW k of the eigenvector matrix V;
-   P = row^T row (outer product WITHOUT conjugate); adjacent EXACTLY equal eigenvalues are grouped and their P summed;
-   hs_cb = sum_groups eigenval * kron(P, conj P) *)
+(* mode 1.  eigh returns eigenvalues w (ascending) and the matrix V whose COLUMN k is the eigenvector of w k.
+   The code walks over the eigenpairs, builds one matrix P per eigenpair, sums the P of ADJACENT EXACTLY equal eigenvalues
+   (spectral_decomp dict, eigenval_prev) and returns  hs_cb = sum_groups eigenval * kron(P_group, conj P_group).
+   [gm1_*] is generic in the per-eigenpair matrix [outer k]:
+     colouter V k = |v_k><v_k|  (column k, with conjugate)  - the code after fix povm-generate-mprocess-mode1-eigenvectors
+                                                                (the docstring's spectral projectors): [gm_mode1_cb];
+     rowouter V k = row_k^T row_k (ROW k, no conjugate)      - AS CODED BEFORE that fix: [gm_mode1_cb_prefix]. *)
 Definition rowouter (V : CM) (k : nat) : CM := fun i j => cmul Cx (V k i) (V k j).
+Definition colouter (V : CM) (k : nat) : CM := fun i j => cmul Cx (V i k) (zconj (V j k)).
 Definition cmadd (A B : CM) : CM := fun i j => cadd Cx (A i j) (B i j).
 (* groups: list of (eigenvalue, summed P); built front to back, the current group is the head *)
-Definition gm1_step (w : nat -> F) (V : CM) (acc : list (F * CM)) (k : nat) : list (F * CM) :=
+Definition gm1_step (outer : nat -> CM) (w : nat -> F) (acc : list (F * CM)) (k : nat) : list (F * CM) :=
   match acc with
-  | (e, P) :: t => if kleb F e (w k) && kleb F (w k) e then (e, cmadd P (rowouter V k)) :: t
-                   else (w k, rowouter V k) :: acc
-  | [] => [(w k, rowouter V k)]
+  | (e, P) :: t => if kleb F e (w k) && kleb F (w k) e then (e, cmadd P (outer k)) :: t
+                   else (w k, outer k) :: acc
+  | [] => [(w k, outer k)]
   end.
-Definition gm1_groups (w : nat -> F) (V : CM) : list (F * CM) := fold_left (gm1_step w V) (seq 0 d) [].
-Definition gm_mode1_cb (w : nat -> F) (V : CM) : CM :=
-  fun r c => fold_right (fun g acc => cadd Cx (cmul Cx (zof (fst g)) (kron d d (snd g) (cconj (snd g)) r c)) acc)
-                        (c0 Cx) (gm1_groups w V).
-(* the formula of the docstring (proposed fix): COLUMN k of V, P = |v><v| with conjugate, no grouping needed for the induced POVM *)
-Definition colouter (V : CM) (k : nat) : CM := fun i j => cmul Cx (V i k) (zconj (V j k)).
-Definition gm_mode1_cb_fixed (w : nat -> F) (V : CM) : CM :=
+Definition gm1_groups (outer : nat -> CM) (w : nat -> F) : list (F * CM) := fold_left (gm1_step outer w) (seq 0 d) [].
+Definition gm1_cb_of_groups (gs : list (F * CM)) : CM :=
+  fun r c => fold_right (fun g acc => cadd Cx (cmul Cx (zof (fst g)) (kron d d (snd g) (cconj (snd g)) r c)) acc) (c0 Cx) gs.
+(* the code (after the fix) *)
+Definition gm_mode1_cb (w : nat -> F) (V : CM) : CM := gm1_cb_of_groups (gm1_groups (colouter V) w).
+(* AS CODED BEFORE fix povm-generate-mprocess-mode1-eigenvectors: zip(eigenvals, eigenvecs) paired eigenvalue k with ROW k of V
+   and P = row^T row lacked the conjugate *)
+Definition gm_mode1_cb_prefix (w : nat -> F) (V : CM) : CM := gm1_cb_of_groups (gm1_groups (rowouter V) w).
+(* the docstring formula without any grouping (rank-one projectors): equal to [gm_mode1_cb] when no two adjacent eigenvalues are
+   exactly equal; induces the same POVM in every case (Proofs/C06_GenMProcess.v) *)
+Definition gm_mode1_cb_doc (w : nat -> F) (V : CM) : CM :=
   fun r c => sumn d (fun k => cmul Cx (zof (w k)) (kron d d (colouter V k) (cconj (colouter V k)) r c)).
-(* matrix_util.truncate_hs(hs, eps): imaginary parts with |im| < eps dropped, any left -> ValueError (26);
-   then real parts with |re| < eps set to 0 *)
+(* matrix_util.truncate_hs(hs, eps), after fix truncate-hs-relative-imag-threshold (C04; identical to the code before that fix whenever
+   max |Re hs| <= 1 or no imaginary part lies in [eps, eps * max |Re hs|) - rounding noise of generate_mprocess is ~1e-17 against eps = 1e-13):
+   imaginary parts with |im| < eps * max(1, max |Re hs|) dropped, any left -> ValueError (26); then real parts with |re| < eps set to 0 *)
 Definition absF' (x : F) : F := if kleb F 0 x then x else copp F x.
 Fixpoint allbn (k : nat) (p : nat -> bool) : bool := match k with O => true | S j => allbn j p && p j end.
+Fixpoint maxn (k : nat) (f : nat -> F) : F := match k with O => 0 | S j => maxF (maxn j f) (f j) end.
+Definition hs_size (H : CM) : F := maxn (d * d) (fun a => maxn (d * d) (fun b => absF' (re (H a b)))).
 Definition truncate_hs (eps : F) (H : CM) : mres RM :=
-  if allbn (d * d) (fun a => allbn (d * d) (fun b => ltb F (absF' (im (H a b))) eps || keq0 (im (H a b))))
+  let eps_im := eps * maxF 1 (hs_size H) in
+  if allbn (d * d) (fun a => allbn (d * d) (fun b => ltb F (absF' (im (H a b))) eps_im || keq0 (im (H a b))))
   then MOk (fun a b => if ltb F (absF' (re (H a b))) eps then 0 else re (H a b))
   else MErr 26.
 (* the effect (as a d x d operator, row-major vector) induced by a comp-basis HS matrix: tr(E(rho)) = <vec I, Hcb vec rho> *)
